@@ -174,3 +174,23 @@ def run(F, rep, tier):
         rep.floor("C13-R4", "negation arms", n, 5)
     from rules.k2_targets import run_k2
     run_k2(F, rep, "C13", "C13-R5")
+    # ---- R6: a suffixed integer (`300u8`) is evaluated as the annotated form (`300<u8>`) is: its digits are re-wrapped in the variant the parser
+    # builds for plain (unprefixed) digits and handed to typed_literal, so both forms go through the same digit evaluator and the same conversion
+    rep.rule("C13-R6", "suffixed integers: real() re-wraps the digits of RealNumber::TypedInteger in the variant untyped_integer builds (the annotated form's path) before typed_literal converts them")
+    plain = {v for v, fns in built.items() if "untyped_integer" in fns}
+    if rep.check(real is not None and len(plain) == 1, "C13-R6", "anchor:plain-integer-variant", "cannot identify the variant built by untyped_integer: %s" % sorted(plain)):
+        found = 0
+        for m in find(real["body"], "match"):
+            for arm in m[2]:
+                if "RealNumber::TypedInteger" not in render_pat(arm[0]):
+                    continue
+                found += 1
+                wrapped = sorted({re.match(r"RealNumber::(\w+)$", c[1][1]).group(1) for c in find(arm[2], "call")
+                                  if is_node(c[1]) and c[1][0] == "path" and re.match(r"RealNumber::(\w+)$", c[1][1])})
+                conv = [path_of(c[1]) for c in find(arm[2], "call") if path_of(c[1]) and path_of(c[1]).split("::")[-1] == "typed_literal"]
+                rep.check(wrapped == sorted(plain) and bool(conv), "C13-R6", "typed-integer:rewrap",
+                          "real(): the TypedInteger arm re-wraps its digits as RealNumber::%s and %s; the annotated form `N<kind>` evaluates RealNumber::%s through typed_literal - the two spellings of one literal "
+                          "then go through different digit evaluators (f64 vs i64 parse) and the out-of-range conversion differs (saturating vs wrapping cast)" % (
+                              wrapped, "calls typed_literal" if conv else "does not call typed_literal", sorted(plain)),
+                          sample={"arm": "TypedInteger", "rewrapped_as": wrapped, "plain_digit_variant": sorted(plain)})
+        rep.floor("C13-R6", "TypedInteger arms in real()", found, 1)
